@@ -131,7 +131,7 @@ def describe(tier):
             "baf": "missing, k/100 for k = 0..100, 1/3, 2/3, float neighbours of 0, 0.5, 1" if t else [None] + BAF_Q[1:],
             "purity": [None, 0.5, 0.8, 1.0, 0.3],
             "allelic_vectors": ALLELIC_VECTORS,
-            "index": "allelic: default and shifted (labels 1..n); step: default" + (" and shifted" if t else ""),
+            "index": "allelic: default and shifted (labels 1..n); step: " + ("default and shifted" if t else "default (chr names) / shifted (plain names)"),
         },
         "alphabet": {
             "containers": ["omitted", "tuple", "list", "ndarray"],
@@ -210,8 +210,12 @@ def build(rows, cols, index):
     return full.as_dataframe(full.data.iloc[1:])
 
 
-def step_indexes(tier):
-    return ("default", "shifted") if tier == "thorough" else ("default",)
+def step_indexes(tier, naming="chr"):
+    """thorough: both row-index variants for every table; quick: the default index for the chr-named tables and the shifted
+    one (labels 1..n) for the plainly named ones, at no extra cost."""
+    if tier == "thorough":
+        return ("default", "shifted")
+    return ("default",) if naming == "chr" else ("shifted",)
 
 
 def lay_out(per_kind, naming, extra=None):
@@ -372,7 +376,7 @@ def run_step(case, ctx):
             rows, info = lay_out(per_kind, naming)
             kinds = [i[0] for i in info]
             logs = [i[1] for i in info]
-            for index in step_indexes(ctx.tier):
+            for index in step_indexes(ctx.tier, naming):
                 cna = build(rows, COLS, index)
                 cfg = {"naming": naming, "male_reference": male_ref, "index": index}
                 ctx.stratum("step-index:" + index)
